@@ -310,12 +310,25 @@ def run(pid, tier, replay=None):
     # C20: bounded memory - the live size after a full collection does not depend on how long the loop ran
     if pid == "C20":
         loops = []
-        for i in range(20 if tier == "quick" else 300):
+        for i in range(60 if tier == "quick" else 400):
             k = rnd.randint(5, 40)
             body = rnd.choice(['let t = [i, i + 1]; let s = "v" + i.str(); keep = s;', 'let o = K(); o.x = [i]; keep = o;',
-                               'let f = || i; keep = f;', 'let t = ("a" + i.str(), i); keep = t[0];', 'keep = "${i}-${keep == nil}";'])
+                               'let f = || i; keep = f;', 'let t = ("a" + i.str(), i); keep = t[0];', 'keep = "${i}-${keep == nil}";',
+                               # the paths on which something could be left behind: errors (caught) from natives, from callbacks and from
+                               # the interpreter, fibers that come and go, channels, classes made at run time, growing and shrinking collections
+                               'try { [1][9]; } catch e { keep = e.message.len(); }', 'try { assertEq(i, -1); } catch e { keep = e.backTrace.len(); }',
+                               'try { [1, 2].iter().map(|x| x.zz).list(); } catch e { keep = 1; }', 'try { nil + i; } catch e { keep = e.cls().name(); }',
+                               'try { [2, 1].sort(|a, b| nil); } catch e { keep = 2; }', 'try { raise Error("m", Error("inner" + i.str())); } catch e { keep = e.inner.message.len(); }',
+                               'let ch = chan(2); ch <- [i]; keep = (<- ch).len();', 'let ch = chan(1); launch W(ch, i); keep = <- ch;',
+                               'let ch = chan(1); launch (|c| { c <- [i, i]; })(ch); keep = (<- ch).len();',
+                               'keep = [3, 1, 2, i].sort(|a, b| a - b).len();', 'keep = i.times().map(|x| [x]).filter(|x| x.len() > 0).take(3).list().len();',
+                               'let l = []; for j in 9.times() { l.push([j]); } for j in 9.times() { l.pop(); } keep = l.len();',
+                               'let m = {}; for j in 9.times() { m[j] = "v" + j.str(); } for j in 9.times() { m.remove(j); } keep = m.len();',
+                               'keep = mk(i).who();', 'keep = "a,b,c".split(",").map(|x| x + i.str()).list().len();', 'keep = "x${[i]}y${(i, i)}z".len() > 0;'])
             for mult in (1, 2, 4):
-                src = f"class K {{ init() {{ self.x = nil; }} }}\nlet keep = nil;\nfor i in {k * mult}.times() {{ {body} }}\nprint(\"done\");\n"
+                src = (f"class K {{ init() {{ self.x = nil; }} }}\nfn W(ch, i) {{ ch <- i; }}\n"
+                       f"fn mk(i) {{ class Local {{ init() {{ self.i = i; }} who() {{ return self.i; }} }} return Local(); }}\n"
+                       f"let keep = nil;\nfor i in {k * mult}.times() {{ {body} }}\nprint(\"done\");\n")
                 loops.append({"id": f"loop{i}x{mult}", "files": {"main.lay": src}, "post_collect": True, "gc": {"every": 50}, "_k": i, "_m": mult, "_src": src})
         res = vlib.run_batch(binary, [{k: x[k] for k in ("id", "files", "post_collect", "gc")} for x in loops], per_case_timeout=60)
         by = collections.defaultdict(dict)
@@ -329,7 +342,13 @@ def run(pid, tier, replay=None):
             vals = [x for x in sizes.values() if x is not None]
             # strings built from the loop counter have different lengths; allow the keep value itself to differ by < 64 bytes
             if vals and max(vals) - min(vals) > 64:
-                v.violation(f"live size after a full collection grows with the loop count: {sizes}", {"source": d[1][1], "sizes": sizes})
+                body = d[1][1]
+                kf = {f["id"]: f for f in vlib.known_findings().get("findings", [])}.get("KF-C20-used-channels")
+                # the listed finding: a loop that creates a channel per iteration (the three bodies below), nothing else
+                if kf and any(cls in body for cls in kf.get("classes", [])):
+                    v.known_finding("KF-C20-used-channels", f"loop {k}: {sizes}")
+                else:
+                    v.violation(f"live size after a full collection grows with the loop count: {sizes}", {"source": body, "sizes": sizes})
         v.notes["bounded_memory_programs"] = len(by)
     v.cov["evaluations"] = judged
     v.cov["distinct_nontrivial"] = len({c["src"] for c in cases})
